@@ -154,6 +154,39 @@ def return_paths(fn_node, max_paths=256):
     return out
 
 
+def value_paths(fn_node, assign, max_paths=256):
+    """the table of the value stored by one assignment statement of fn_node: as return_paths of the function in which that
+    statement returns its value (paths that end elsewhere are dropped)"""
+    class R(ast.NodeTransformer):
+        def visit_Assign(self, n):
+            if n is assign:
+                return ast.copy_location(ast.Return(value=n.value), n)
+            return n
+    marker = object()
+    fn2 = copy.copy(fn_node)
+    fn2.body = [R().visit(s) if any(x is assign for x in ast.walk(s)) else s for s in _shallow(fn_node.body, assign)]
+    return [p for p in return_paths(fn2, max_paths) if p.value is not None or p.raises]
+
+
+def _shallow(stmts, assign):
+    """copies of the statements on the way to `assign` (so the transformer does not touch the original tree)"""
+    out = []
+    for s in stmts:
+        if any(x is assign for x in ast.walk(s)) and s is not assign:
+            s2 = copy.copy(s)
+            for f in ('body', 'orelse', 'finalbody'):
+                if getattr(s2, f, None):
+                    setattr(s2, f, _shallow(getattr(s2, f), assign))
+            if isinstance(s2, ast.Try):
+                s2.handlers = [copy.copy(h) for h in s2.handlers]
+                for h in s2.handlers:
+                    h.body = _shallow(h.body, assign)
+            out.append(s2)
+        else:
+            out.append(s)
+    return out
+
+
 def classify(cond, polarity, name_pred):
     """classification of one literal condition with respect to an expression recognised by name_pred(expr):
     'none' / 'notnone' (identity test against None), 'truthy' / 'falsy' (truth test), or None if unrelated"""
